@@ -2,7 +2,7 @@
   Lemmas/CoreRoles4 — the roles invariant through the message handlers.
 -/
 import DymVerif.Lemmas.CoreRoles3
-namespace DymVerif.Core
+namespace DymVerif.Core.Roles
 
 -- ---------------------------------------------------------------- money movements change nothing role-relevant
 
@@ -633,4 +633,4 @@ theorem kick_roles {s s' : St} {a : Addr} (h : Roles s) (e : kick s a = .ok s') 
                       rw [getSeq_addr hgk, getSeq_addr hq3]
                   exact recoverFromSentinel_roles c4 (h3'.sp.of_ras rfl) e
 
-end DymVerif.Core
+end DymVerif.Core.Roles
